@@ -47,3 +47,16 @@ Theorem C11_model_equivariance_positive : forall sg terms ops hs s hs' s' i j a 
   eg_eq s a b = Ok true -> eg_eq s' a' b' = Ok true.
 Proof. exact equivariance_all. Qed.
 Print Assumptions C11_model_equivariance_positive.
+
+(* third session, second round (EGraph/CompleteSlots*.v): the slot sets are equivariant too - under a renaming of all inputs the non-redundant slots of
+   every handle's canonical form are exactly the images of the original ones (so their number is the same), and a permuted invocation compares
+   equal iff the correspondingly permuted invocation does in the renamed run (CompleteSlots.sym_equivariant). *)
+From SE Require Import EGraph.SoundFacts EGraph.CompleteSlots.
+Theorem C11_model_slots_equivariant : forall sg tau terms ops hs hs' s s', nonB_ren sg -> nonB_ren tau -> (forall x, tau (sg x) = x) ->
+  List.Forall term_static_user terms ->
+  run_ops terms ops [] empty_egraph = Ok (hs, s) -> run_ops (List.map (rren sg) terms) ops [] empty_egraph = Ok (hs', s') ->
+  forall i a a' b b' ta, nth_opt hs i = Some a -> nth_opt (handle_cterms terms ops) i = Some ta -> find_applied_id s a = Ok a' ->
+  nth_opt hs' i = Some b -> find_applied_id s' b = Ok b' ->
+  forall y, List.In y (SlotMap.values (am b')) <-> exists x, List.In x (SlotMap.values (am a')) /\ y = sg x.
+Proof. exact slots_equivariant. Qed.
+Print Assumptions C11_model_slots_equivariant.
